@@ -17,6 +17,7 @@ import (
 func c02One(c *core.Ctx, cs srcCase) {
 	setBlock(&cs)
 	res := drive.Parse(cs.Src, parseVer(cs.Ver), true)
+	disturb()
 	if !res.OK() {
 		c.Stat("crashed_or_hung(C01 domain)", 1)
 		return
